@@ -206,7 +206,16 @@ def build_manifest():
         elif kind in ("EnumProperty", "LiteralEnumProperty"):
             man["enums"][str(cname)] = prop_info(p)
     for ref, p in s.classes_by_reference.items():
-        man["refs"][str(ref)] = {"kind": type(p).__name__, "cls": str(p.class_info.name) if hasattr(p, "class_info") else None}
+        pi = prop_info(p)
+        inner = set()
+
+        def _cls(x):
+            if x.get("cls"):
+                inner.add(x["cls"])
+            for sub in ([x["inner"]] if "inner" in x else []) + (x.get("inners") or []):
+                _cls(sub)
+        _cls(pi)
+        man["refs"][str(ref)] = {"kind": type(p).__name__, "cls": str(p.class_info.name) if hasattr(p, "class_info") else None, "classes": sorted(inner)}
     for tag, coll in (eps or {}).items():
         for e in coll.endpoints:
             man["endpoints"].append({
